@@ -153,4 +153,6 @@ class DiscParallelLinearization(CallableParallelExecution[StrKeyMapping, _Worker
                     disc.io.data = output.io_data
                     disc.jac = output.jacobian
 
-        return [out.jacobian for out in ordered_outputs if out is not None or None]
+        # When the linearization of a discipline failed, its output is None:
+        # keep its slot so that the Jacobians remain positionally matched to the inputs.
+        return [None if out is None else out.jacobian for out in ordered_outputs]
